@@ -12,7 +12,7 @@ mutual
 def maskCause : Json → Json
   | .obj kvs =>
     let kvs' := maskCauseM kvs
-    if kvs'.all (fun kv => kv.1 = S "Error" || kv.1 = S "Cause") && (objGet kvs' (S "Error")).isSome then
+    if (objGet kvs' (S "Error")).isSome then
       match objGet kvs' (S "Cause") with
       | some (.str _) => .obj (objSet kvs' (S "Cause") (.str (S "<cause>")))
       | _ => .obj kvs'
